@@ -469,9 +469,11 @@ func report(prop, tier, repo, verif string, seed int, out *checkOutcome, partial
 		}
 	}
 	failedFns := map[string]bool{}
+	fnErr := map[string]string{}
 	for _, fr := range out.funcs {
 		if fr.Err != "" {
 			failedFns[fr.Name] = true
+			fnErr[fr.Name] = fr.Err
 		}
 	}
 	if haveClaims && !partial {
@@ -483,11 +485,14 @@ func report(prop, tier, repo, verif string, seed int, out *checkOutcome, partial
 			if i := strings.Index(c, "#"); i >= 0 {
 				fn = c[:i]
 			}
+			why := "claimed obligation is no longer generated from the current source: " + c
 			if failedFns[fn] {
-				continue // undecided, reported above
+				// the obligation was discharged on the unchanged tree; now the contract of its function cannot even be
+				// applied to the source (a name it mentions is gone, or the body left the supported subset)
+				why = "claimed obligation can no longer be generated: the contract of " + fn + " does not apply to the current source (" + fnErr[fn] + ")"
 			}
 			total++
-			file := writeReplayText(replayDir, prop, c, "claimed obligation is no longer generated from the current source: "+c)
+			file := writeReplayText(replayDir, prop, c, why)
 			violation(c, file, true)
 		}
 	}
